@@ -8,5 +8,5 @@ else
   export GOTOOLCHAIN=auto
   unset GOSUMDB
 fi
-export VERIF_DIR=${VERIF_DIR:-/verif}
+export VERIF_DIR=${VERIF_DIR:-$(cd "$(dirname "${BASH_SOURCE[0]}")" && pwd)}
 export REPO=${REPO:-/repo}
